@@ -13,7 +13,8 @@ CHECK = {
              "member that \\A(?:re)\\z accepts lies in [min,max] and ends with the suffix; for assertion-free trees min is exact "
              "and attained, max is exact and attained when the computed max is finite, unbounded members => MaxUint. "
              "Non-trivial: the tree has an alternation, a repetition, an assertion or case folding; distinct = distinct "
-             "expression strings."),
+             "expression strings. "
+             "Thorough tier only: FuzzVerifC18, go's native coverage-guided fuzzer over (expression text, haystack) pairs: every match binaryregexp finds at any start position of the haystack must have a length inside [MinLength, MaxLength] and end with the constant suffix (reaches unicode classes, flag groups and escapes the tree generator does not produce); evidence counts executions and corpus entries with new coverage."),
     "technique": "property-based testing with a syntax-tree generator whose language (lengths, members) is known by construction; engine rsc.io/binaryregexp as membership oracle",
     "level_text": ("generated expressions compared with exact lengths and sampled members of their own syntax tree; finds wrong "
                    "bounds/suffixes for particular program shapes (memoisation, loop detection, folding); no absence claim"),
